@@ -48,5 +48,99 @@ fn k5_copy_stays_in_buffer() {
   kani::cover!(cap == 0);
 }
 
+// ---- K6: pointer arguments of searchlite_search (kani/ffi_inputs.tpl -> .cache/gen/ffi_inputs.rs) ----
+// The statements that touch handle / query / cursor / aggs_json are cut out mechanically; reading a C string
+// (CStr::from_ptr(p).to_string_lossy().to_string()) is replaced by a loop that reads p up to its NUL, UTF-8 decoding of the aggregation bytes by a function that reads
+// every byte of the slice, and the JSON parser by a stub with either outcome: what is checked is WHICH memory is read.
+include!("/verif/.cache/gen/ffi_inputs.rs");
+
+const M: usize = 4;
+
+unsafe fn k6_cstr_len(p: *const c_char) -> usize {
+  let mut n = 0usize;
+  while *p.add(n) != 0 {
+    n += 1;
+  }
+  n
+}
+
+fn k6_touch_all(raw: &[u8]) -> String {
+  let mut acc = 0u8;
+  let mut i = 0;
+  while i < raw.len() {
+    acc ^= raw[i];
+    i += 1;
+  }
+  if acc == 0x5A { String::new() } else { String::new() }
+}
+
+fn k6_parse_stub(_body: &String) -> Result<BTreeMap<String, Aggregation>, ()> {
+  if kani::any() { Ok(BTreeMap::new()) } else { Err(()) }
+}
+
+// C26: a null handle or query is rejected before anything is dereferenced; a valid query is read up to its NUL only
+#[kani::proof]
+#[kani::unwind(6)]
+fn k6_head_rejects_null_handle_and_query() {
+  let mut h = std::mem::MaybeUninit::<IndexHandle>::uninit();
+  let hp: *mut IndexHandle = if kani::any() { std::ptr::null_mut() } else { h.as_mut_ptr() };
+  let mut q: [u8; M] = kani::any();
+  q[M - 1] = 0;
+  let off: usize = kani::any();
+  kani::assume(off < M);
+  let qp: *const c_char = if kani::any() { std::ptr::null() } else { unsafe { q.as_ptr().add(off) as *const c_char } };
+  let r = unsafe { ffi_head(hp, qp) };
+  if hp.is_null() || qp.is_null() {
+    assert!(r == 0);
+  } else {
+    assert!(r >= 1 && r <= M - off);
+  }
+  kani::cover!(hp.is_null() && !qp.is_null());
+  kani::cover!(!hp.is_null() && qp.is_null());
+  kani::cover!(r > 1);
+}
+
+// C26: a null cursor means "no cursor" and is never dereferenced
+#[kani::proof]
+#[kani::unwind(6)]
+fn k6_cursor_null_is_none() {
+  let mut c: [u8; M] = kani::any();
+  c[M - 1] = 0;
+  let off: usize = kani::any();
+  kani::assume(off < M);
+  let cp: *const c_char = if kani::any() { std::ptr::null() } else { unsafe { c.as_ptr().add(off) as *const c_char } };
+  let r = unsafe { ffi_cursor(cp) };
+  assert!(r.is_none() == cp.is_null());
+  kani::cover!(r.is_some());
+}
+
+// C26: the aggregation bytes are read only through a non-null pointer and only aggs_len of them
+// (the buffer ends exactly aggs_len bytes after the pointer: one byte more is an out-of-bounds read)
+#[kani::proof]
+#[kani::unwind(6)]
+fn k6_aggs_reads_only_given_bytes() {
+  let buf: [u8; M] = kani::any();
+  let len: usize = kani::any();
+  let r = if kani::any() {
+    unsafe { ffi_aggs(std::ptr::null(), len) }
+  } else {
+    kani::assume(len <= M);
+    unsafe { ffi_aggs(buf.as_ptr().add(M - len) as *const c_char, len) }
+  };
+  kani::cover!(r.is_none());
+  kani::cover!(r.is_some() && len > 0);
+  std::mem::forget(r);
+}
+
+// C26: a null aggs_json is never read, whatever aggs_len says
+#[kani::proof]
+#[kani::unwind(6)]
+fn k6_aggs_null_pointer_never_read() {
+  let len: usize = kani::any();
+  let r = unsafe { ffi_aggs(std::ptr::null(), len) };
+  assert!(r.is_some());
+  std::mem::forget(r);
+}
+
 // concrete-playback tests (empty unless a failed harness is being replayed)
 include!("/verif/.cache/gen/playback_ffi.rs");
